@@ -284,8 +284,12 @@ kdump_clone(const kdump_ctx_t *orig, unsigned long flags)
 	attr_dict_decref(ctx->dict);
  err_shared:
 	list_del(&ctx->list);
+	for (slot = 0; slot < PER_CTX_SLOTS; ++slot)
+		if (orig->shared->per_ctx_size[slot])
+			free(ctx->data[slot]);
 	shared_decref_locked(ctx->shared);
 	rwlock_unlock(&orig->shared->lock);
+	addrxlat_ctx_decref(ctx->xlatctx);
 	free(ctx);
 	return NULL;
 }
